@@ -98,6 +98,59 @@ func rulePanicAssert(p *Prog, r *Report, fns []*ssa.Function) {
 	}
 }
 
+// rulePanicCompare: == / != between two interface values panics when both hold the same uncomparable dynamic type (a map, a
+// list, a function). Discharged when one operand is the nil constant, or when the type-set dataflow shows that one operand can
+// only hold comparable types.
+func rulePanicCompare(p *Prog, r *Report, fns []*ssa.Function) {
+	const rule = "PANIC.compare"
+	comparableOnly := func(s tset) bool {
+		if s.neg {
+			return false
+		}
+		for k := range s.ts {
+			if strings.HasPrefix(k, "map[") || strings.HasPrefix(k, "[]") || strings.HasPrefix(k, "func(") || strings.HasPrefix(k, "struct{") || strings.HasPrefix(k, "[") {
+				return false
+			}
+		}
+		return true
+	}
+	for _, fn := range fns {
+		if len(fn.Blocks) == 0 {
+			continue
+		}
+		var tf *typeFlow
+		ord := newOrdinals()
+		name := p.Name(fn)
+		for _, in := range instrsByPos(fn) {
+			bo, ok := in.(*ssa.BinOp)
+			if !ok || (bo.Op != token.EQL && bo.Op != token.NEQ) || !isEmptyIface(bo.X.Type()) || !isEmptyIface(bo.Y.Type()) {
+				continue
+			}
+			if isNilConst(bo.X) || isNilConst(bo.Y) {
+				continue
+			}
+			if tf == nil {
+				tf = p.typeFlowOf(fn)
+			}
+			src := p.ExprAt(bo.Pos())
+			if src == "" {
+				src = "interface comparison"
+			}
+			construct := ord.key(name, src)
+			sets, seen := tf.cmp[bo]
+			if !seen {
+				r.OK(rule, name, construct, p.Pos(bo.Pos()), "unreachable block")
+				continue
+			}
+			if comparableOnly(sets[0]) || comparableOnly(sets[1]) {
+				r.OK(rule, name, construct, p.Pos(bo.Pos()), "one operand can only hold comparable types ("+sets[0].String()+" / "+sets[1].String()+")")
+			} else {
+				r.Bad(rule, name, construct, p.Pos(bo.Pos()), "both operands may hold a map or a list ("+sets[0].String()+" / "+sets[1].String()+"): comparing two interface values of the same uncomparable dynamic type panics at run time")
+			}
+		}
+	}
+}
+
 func withinAsserted(s tset, T types.Type) (bool, string) {
 	if s.neg {
 		return false, ""
